@@ -35,6 +35,11 @@ pub fn install_silent_hook() {
                 Some(l) => (l.file().to_string(), l.line()),
                 None => ("?".to_string(), 0),
             };
+            if message.contains("unsafe precondition") || message.contains("cannot unwind") {
+                // the process is about to abort (unsafe-precondition check, panic in a no-unwind
+                // context): this is the only chance to say why; the supervisor reads it
+                eprintln!("VP-ABORT non-unwinding panic: {} at {}:{}", message, file, line);
+            }
             LAST.with(|c| *c.borrow_mut() = Some(PanicInfo { message, file, line }));
         }));
     });
